@@ -163,3 +163,53 @@ def summarize(outs):
                     key = e["oc"] if e["oc"] == "ok" else ("refused" if e["flag"] else e["oc"])
                     s["ladder"][key] = s["ladder"].get(key, 0) + 1
     return st
+
+
+# ------------------------------------------------------------------ Allocator.tla: exhaustive + replay into the real allocator
+
+def allocator_replay(binp, quick, seed_):
+    """Returns dict(states, generated, behaviours, runs, violations, drift, sample, model_issue)."""
+    res = {"violations": [], "drift": [], "model_issue": None}
+    base = ("SPECIFICATION Spec\nCONSTANTS\n Limit1 = %d\n Limit2 = %d\n MaxSize = 3\n MaxBlocks = 3\n MaxOps = %d\n"
+            " MutCheckAfter = FALSE\n MutShrinkIgnored = FALSE\nINVARIANTS WithinLimit Accounting Monotone SameWhileBothAlive %s\nCHECK_DEADLOCK FALSE\n")
+    r = C.run_tlc(SPEC, "Allocator", base % (4, 6, 5 if quick else 7, ""), workers=8, timeout=1200)
+    C.drop_scratch(r["dir"])
+    if r["error"]:
+        raise C.Inconclusive("Allocator.tla: %s" % r["error"])
+    res["states"], res["generated"] = r["distinct"], r["generated"]
+    if r["violated"]:
+        res["model_issue"] = "Allocator.tla: %s" % r["violated"]
+    d = C.scratch("alloc.")
+    casep, outp = os.path.join(d, "cases.ndjson"), os.path.join(d, "trace.ndjson")
+    seen = set()
+    with open(casep, "w") as fh:
+        for k, (l1, l2) in enumerate([(4, 6), (2, 9), (5, 5), (0, 3), (7, 8)]):
+            rs = C.run_tlc(SPEC, "Allocator", base % (l1, l2, 8, "Emit"), workers=1, timeout=300,
+                           extra_args=["-simulate", "num=%d" % (150 if quick else 2000), "-depth", "9", "-seed", str(seed_ * 17 + k)])
+            for m in re.finditer(r'<<"ALLOC", "(.*)">>', rs["out"]):
+                raw = m.group(1).encode().decode("unicode_escape")
+                if raw not in seen:
+                    seen.add(raw)
+                    fh.write(raw + "\n")
+            C.drop_scratch(rs["dir"])
+    res["behaviours"] = len(seen)
+    env = dict(C.GOENV, VERIF_ALLOC_CASES=casep, VERIF_ALLOC_OUT=outp)
+    rc, out = C.sh([binp, "-test.run", "TestAllocatorReplay", "-test.count=1"], env=env, cwd=d, timeout=600)
+    if rc != 0:
+        raise C.Inconclusive("TestAllocatorReplay failed:\n" + out[-2000:])
+    recs = [json.loads(x) for x in open(outp)]
+    res["runs"] = len(recs)
+    cfg = 'SPECIFICATION Spec\nCONSTANT TraceFile = "trace.ndjson"\nINVARIANT Report\nCHECK_DEADLOCK FALSE\n'
+    r2 = C.run_tlc(SPEC, "AllocObs", cfg, workers=1, timeout=900, files={"trace.ndjson": outp})
+    m = re.search(r'<<"ALLOCOBS-RESULT", (\d+), "(.*)", "(.*)">>', r2["out"])
+    C.drop_scratch(r2["dir"])
+    if not m:
+        raise C.Inconclusive("AllocObs did not finish:\n" + r2["out"][-2000:])
+    byn = {x["n"]: x for x in recs}
+    for n_, prop, clause in json.loads(m.group(2).encode().decode("unicode_escape")):
+        res["violations"].append((prop, clause, byn[n_]))
+    for n_ in json.loads(m.group(3).encode().decode("unicode_escape")):
+        res["drift"].append(byn[n_])
+    res["sample"] = recs[len(recs) // 2] if recs else None
+    C.drop_scratch(d)
+    return res
